@@ -3,6 +3,8 @@ import GrinVerif.Model.Pow
 import GrinVerif.Model.PowSpec
 import GrinVerif.Model.PowPack
 import GrinVerif.Model.PowSelect
+import GrinVerif.Model.PowCtx
+import GrinVerif.Model.PowDiff
 /-! Driver glue for the `pow` domain (line protocol handler), property C05.
 
 ops (see harness/src/bin/pow.rs):
@@ -13,35 +15,25 @@ ops (see harness/src/bin/pow.rs):
   differs from the independent graph oracle, DIFF when only the error kind / transliteration differs
 * `exh <variant> eb proofsize k0 k1 k2 k3 => <one verdict char per ascending tuple>`
 * `select <chain> height eb [avail] => [accepted]|err` (variant selection of `create_pow_context`)
-* `pack w proofsize [nonces] => hex|panic`, `unpack w proofsize <hex> => [nonces]|err`, `diff scale <hashhex> => n`
+* `pack w proofsize [nonces] => hex|panic`, `unpack w proofsize <hex> => [nonces]|err`, `diff scale <packedhex> => n`
+* context histories (ONE context object; the model state `St.ctx` is folded over the lines):
+  `hnew <variant> eb proofsize ctxps => ok`,
+  `hseed <hdrhex> <nonce|none> <solve> => k0 k1 k2 k3 | -` (`set_header_nonce`; keys observed on the
+  very object where the API shows them), `hfind => [[..],..]|nosol|err|panic` (`find_cycles`),
+  `hverify <tag> [nonces] => ok|<err>`: the model verdict is a function of the keys of the LAST
+  `hseed` only; FAIL when accept/reject differs from the independent oracle on that header's graph
+* difficulty over the full parameter space: `gw <chain> height eb => weight` (`graph_weight`),
+  `todiff <chain> height eb secondary_scaling <packedhex> => n` (`ProofOfWork::to_difficulty`),
+  `undiff <packedhex> => n` (`to_unscaled_difficulty`)
 -/
 namespace GV.Drv.PowD
 open GV GV.Drv GV.Pow
 
 structure St where
-  dummy : Unit := ()
-
-def mkKeys (a b c d : Nat) : Keys := ⟨a.toUInt64, b.toUInt64, c.toUInt64, d.toUInt64⟩
-
-def epOf (v : Variant) (k : Keys) (eb : Nat) : Nat → Nat × Nat :=
-  match v with
-  | .cuckatoo => epCuckatoo k eb
-  | .cuckaroo => epCuckaroo k eb
-  | .cuckarood => epCuckarood k eb
-  | .cuckaroom => epCuckaroom k eb
-  | .cuckarooz => epCuckarooz k eb
-
-def verifyOf (v : Variant) : Params → (Nat → Nat × Nat) → List Nat → Except Err Unit :=
-  match v with
-  | .cuckatoo => verifyCuckatoo
-  | .cuckaroo => verifyCuckaroo
-  | .cuckarood => verifyCuckarood
-  | .cuckaroom => verifyCuckaroom
-  | .cuckarooz => verifyCuckarooz
-
-def mkParams (eb ps ctxps : Nat) : Params :=
-  let m := bucketMask ps
-  { proofsize := ps, edgeMask := 2^eb - 1, ctxProofSize := ctxps, bk := fun x => x &&& m }
+  /-- the one context object of a history run -/
+  ctx : Option Ctx := none
+  /-- number of calls made on it (for messages) -/
+  calls : Nat := 0
 
 def resName : Except Err Unit → String
   | .ok _ => "ok"
@@ -108,6 +100,22 @@ def exhaustive (v : Variant) (eb ps : Nat) (k : Keys) (impl : String) : Verdict 
       | some b => .diff b
       | none => .ok
 
+def keysStr (k : Keys) : String := s!"{k.k0.toNat} {k.k1.toNat} {k.k2.toNat} {k.k3.toNat}"
+
+/-- one `verify` observation on context `c`: FIRST implementation vs independent oracle on the
+graph of the context's current keys (production configuration ctx.proof_size = proofsize): a
+difference is a concrete failing input; then the transliterated model (accept/reject and error
+kind) -/
+def verifyVerdict (c : Ctx) (ns : List Nat) (impl : String) (note : String) : Verdict :=
+  let ep := epOf c.variant c.keys c.edgeBits
+  let r := c.verify ns
+  let o := oracleAccept c.variant c.proofsize (2^c.edgeBits - 1) ep ns
+  if c.ctxProofSize == c.proofsize && (impl == "ok") != o then
+    let what := if impl == "ok" then "ACCEPTS a non-cycle" else s!"REJECTS ({impl}) a cycle"
+    let oa := if o then "accept" else "reject"
+    .fail s!"nonces={showNatList ns}: implementation {what}; oracle={oa} model={resName r}{note}"
+  else cmpModel (resName r) impl
+
 def handle (st : St) (args : List String) (impl : String) : St × Verdict :=
   match args with
   | ["sip24", a, b, c, d, n] =>
@@ -122,13 +130,7 @@ def handle (st : St) (args : List String) (impl : String) : St × Verdict :=
     | _, _, _, _, _, _ => (st, .unknown)
   | ["keys", hdr, nonce] =>
     match parseHex hdr with
-    | some hb =>
-      let hb := match nat? nonce with
-        | some n => hb.take (hb.length - 4) ++ leBytes 4 n
-        | none => hb
-      let h := h256 hb
-      let w := fun i => ofLE ((h.drop (8*i)).take 8)
-      (st, cmpModel s!"{w 0} {w 1} {w 2} {w 3}" impl)
+    | some hb => (st, cmpModel (keysStr (keysOfHeader hb (nat? nonce))) impl)
     | none => (st, .unknown)
   | ["ep", v, eb, a, b, c, d, n] =>
     match Variant.ofString? v, nat? eb, nat? a, nat? b, nat? c, nat? d, nat? n with
@@ -139,18 +141,39 @@ def handle (st : St) (args : List String) (impl : String) : St × Verdict :=
   | ["verify", v, eb, ps, cps, a, b, c, d, ns] =>
     match Variant.ofString? v, nat? eb, nat? ps, nat? cps, nat? a, nat? b, nat? c, nat? d, parseNatList ns with
     | some v, some eb, some ps, some cps, some a, some b, some c, some d, some ns =>
-      let ep := epOf v (mkKeys a b c d) eb
-      let r := verifyOf v (mkParams eb ps cps) ep ns
-      let o := oracleAccept v ps (2^eb - 1) ep ns
-      -- FIRST implementation vs independent oracle (production configuration
-      -- ctx.proof_size = proofsize): a difference is a concrete failing input
-      if cps == ps && (impl == "ok") != o then
-        let what := if impl == "ok" then "ACCEPTS a non-cycle" else s!"REJECTS ({impl}) a cycle"
-        let oa := if o then "accept" else "reject"
-        (st, .fail s!"nonces={showNatList ns}: implementation {what}; oracle={oa} model={resName r}")
-      -- then the transliterated model (accept/reject and error kind)
-      else (st, cmpModel (resName r) impl)
+      (st, verifyVerdict { Ctx.new v eb ps cps with keys := mkKeys a b c d } ns impl "")
     | _, _, _, _, _, _, _, _, _ => (st, .unknown)
+  | ["hnew", v, eb, ps, cps] =>
+    match Variant.ofString? v, nat? eb, nat? ps, nat? cps with
+    | some v, some eb, some ps, some cps => ({ ctx := some (Ctx.new v eb ps cps), calls := 0 }, cmpModel "ok" impl)
+    | _, _, _, _ => (st, .unknown)
+  | ["hseed", hdr, nonce, solve] =>
+    match st.ctx, parseHex hdr with
+    | some c, some hb =>
+      let c := c.step (.seed hb (nat? nonce) (solve == "true"))
+      ({ ctx := some c, calls := st.calls + 1 },
+        if impl == "-" then .ok else cmpModel (keysStr c.keys) impl)
+    | _, _ => (st, .unknown)
+  | ["hfind"] =>
+    match st.ctx with
+    | some c =>
+      let st' := fun sols => { ctx := some (c.step (.find sols)), calls := st.calls + 1 }
+      if c.variant != .cuckatoo then (st' [], cmpModel "panic" impl)        -- unimplemented!()
+      else if !c.graphReset then (st' [], cmpModel "panic" impl)           -- adj_list is empty: index panic
+      else if impl == "nosol" || impl == "err" || impl == "panic" then (st' [], .ok)
+      else match (impl.splitOn ";").mapM parseNatList with
+        | none => (st, .unknown)
+        | some sols =>
+          -- the solver is not modelled; what it reports must be cycles of the current header
+          match sols.find? (fun s => resName (c.verify s) != "ok") with
+          | some s => (st' sols, .diff s!"solver reported {showNatList s}, which the model refuses ({resName (c.verify s)})")
+          | none => (st' sols, .ok)
+    | none => (st, .unknown)
+  | ["hverify", _tag, ns] =>
+    match st.ctx, parseNatList ns with
+    | some c, some ns =>
+      ({ st with calls := st.calls + 1 }, verifyVerdict c ns impl s!" (call #{st.calls + 1} on this context object)")
+    | _, _ => (st, .unknown)
   | ["exh", v, eb, ps, a, b, c, d] =>
     match Variant.ofString? v, nat? eb, nat? ps, nat? a, nat? b, nat? c, nat? d with
     | some v, some eb, some ps, some a, some b, some c, some d =>
@@ -184,6 +207,20 @@ def handle (st : St) (args : List String) (impl : String) : St × Verdict :=
     match nat? scale, parseHex hx with
     | some sc, some bs => (st, cmpSpec (toString (scaledDifficulty sc bs)) impl)
     | _, _ => (st, .unknown)
+  | ["gw", chain, h, eb] =>
+    match ChainType.ofString? chain, nat? h, nat? eb with
+    | some c, some h, some eb => (st, cmpModel (toString (graphWeight c h eb)) impl)
+    | _, _, _ => (st, .unknown)
+  | ["todiff", chain, h, eb, sec, hx] =>
+    -- `toDifficulty` is the u128 arithmetic as written; `Props.C05.toDifficulty_exact` proves it equal
+    -- to the exact rational definition, so a difference is a concrete failing input
+    match ChainType.ofString? chain, nat? h, nat? eb, nat? sec, parseHex hx with
+    | some c, some h, some eb, some sec, some bs => (st, cmpSpec (toString (toDifficulty c h eb sec bs)) impl)
+    | _, _, _, _, _ => (st, .unknown)
+  | ["undiff", hx] =>
+    match parseHex hx with
+    | some bs => (st, cmpSpec (toString (toUnscaledDifficulty bs)) impl)
+    | none => (st, .unknown)
   | _ => (st, .unknown)
 
 end GV.Drv.PowD
